@@ -30,6 +30,7 @@ class UnitResult:
         self.assumptions = []
         self.canaries = []  # dicts {name, refuted: bool}
         self.stats = {}
+        self.cached = False
 
     def add_paths(self, results, prefix):
         """collect obligations of explored paths; name them prefix/obname"""
@@ -73,14 +74,86 @@ def _run_one(job):
         return u
 
 
+_TREE_HASH = None
+
+
+def tree_hash():
+    """hash of everything a unit result depends on: the repository sources and the verification code"""
+    global _TREE_HASH
+    if _TREE_HASH is None:
+        import hashlib
+
+        h = hashlib.sha256()
+        roots = ["/repo/src/tpmstream"] + [os.path.join(ROOT, d) for d in ("pyvc", "contracts", "checks", "spec")]
+        for root in roots:
+            for dp, dn, fn in sorted(os.walk(root)):
+                dn.sort()
+                if "__pycache__" in dp:
+                    continue
+                for f in sorted(fn):
+                    if f.endswith((".py", ".json")):
+                        p = os.path.join(dp, f)
+                        h.update(p.encode())
+                        with open(p, "rb") as fh:
+                            h.update(fh.read())
+        h.update(os.environ.get("PYVC_Z3_MS", "").encode())
+        _TREE_HASH = h.hexdigest()[:24]
+    return _TREE_HASH
+
+
+def _cache_path(job):
+    import hashlib
+
+    fn, args = job
+    key = hashlib.sha256(f"{fn.__module__}.{fn.__qualname__}{args!r}".encode()).hexdigest()[:32]
+    return os.path.join(ROOT, ".cache", tree_hash(), key + ".pkl")
+
+
+def _run_cached(job):
+    import pickle
+
+    if os.environ.get("PYVC_NOCACHE"):
+        return _run_one(job)
+    p = _cache_path(job)
+    if os.path.exists(p):
+        try:
+            with open(p, "rb") as f:
+                u = pickle.load(f)
+            u.cached = True
+            return u
+        except Exception:
+            pass
+    u = _run_one(job)
+    if u.error is None:
+        try:
+            os.makedirs(os.path.dirname(p), exist_ok=True)
+            tmp = p + f".{os.getpid()}.tmp"
+            with open(tmp, "wb") as f:
+                pickle.dump(u, f)
+            os.replace(tmp, p)
+        except Exception:
+            pass
+    return u
+
+
 def run_units(jobs, nproc=None):
-    """jobs: list of (function, args) each returning a UnitResult"""
+    """jobs: list of (function, args) each returning a UnitResult.  Results are cached content-addressed: the key
+    covers every source file of /repo/src and of the verifier, so a cache hit is a byte-identical re-run."""
     nproc = nproc or int(os.environ.get("PYVC_JOBS", "16"))
+    tree_hash()
+    # drop caches of other trees (disk hygiene)
+    cdir = os.path.join(ROOT, ".cache")
+    if os.path.isdir(cdir):
+        import shutil
+
+        for d in os.listdir(cdir):
+            if d != tree_hash():
+                shutil.rmtree(os.path.join(cdir, d), ignore_errors=True)
     if nproc <= 1 or len(jobs) <= 1:
-        return [_run_one(j) for j in jobs]
+        return [_run_cached(j) for j in jobs]
     ctx = mp.get_context("fork")
     with ctx.Pool(min(nproc, len(jobs))) as pool:
-        return pool.map(_run_one, jobs, chunksize=1)
+        return pool.map(_run_cached, jobs, chunksize=1)
 
 
 def load_known_findings():
@@ -91,11 +164,23 @@ def load_known_findings():
 
 
 def finding_matches(f, pid, ob):
+    """an open finding is identified by property + obligation (exact name or regex) + failing site (+ detail regex):
+    the same obligation failing at another site, or another obligation at the same site, is a new violation"""
+    import re
+
     if f.get("property") != pid:
         return False
-    if f.get("obligation") != ob["name"]:
+    if "obligation" in f and f["obligation"] != ob["name"]:
         return False
-    if f.get("site") and f["site"] != ob.get("site"):
+    if "obligation_regex" in f and not re.fullmatch(f["obligation_regex"], ob["name"]):
+        return False
+    if "obligation" not in f and "obligation_regex" not in f:
+        return False
+    if f.get("site") and f["site"] != (ob.get("site") or ""):
+        return False
+    if f.get("site_regex") and not re.search(f["site_regex"], ob.get("site") or ""):
+        return False
+    if f.get("detail_regex") and not re.search(f["detail_regex"], ob.get("detail") or ""):
         return False
     return True
 
@@ -189,8 +274,13 @@ class Report:
                     continue
                 violations.append((ob, {"reproduced": True, **d}))
 
+        seen_f = set()
         for hit, ob in known_hits:
-            lines.append(f"KNOWN-FINDING: property={pid} {hit.get('summary', ob['name'])}")
+            if id(hit) in seen_f:
+                continue
+            seen_f.add(id(hit))
+            n = sum(1 for h, _ in known_hits if h is hit)
+            lines.append(f"KNOWN-FINDING: property={pid} {hit.get('id', '')} {hit.get('summary', ob['name'])} [{n} obligation(s)]")
         for i, (ob, rep) in enumerate(violations):
             safe = "".join(c if c.isalnum() or c in "-_." else "_" for c in ob["name"])[:150]
             path = os.path.join("replays", pid, f"{safe}.json")
@@ -211,7 +301,8 @@ class Report:
         for ob in undecided[:20]:
             lines.append(f"UNDECIDED property={pid} obligation={ob['name']} {ob.get('detail', '')[:100]}")
 
-        n_ob = len(all_obs) + len(unsupported)
+        known_refuted = [ob for ob in refuted if any(finding_matches(f, pid, ob) for f in known["findings"])]
+        n_ob = len(all_obs) + len(unsupported) - len(known_refuted)
         n_dis = len(proved)
         level = self.level
         if level == "proof" and (n_dis != n_ob - len([1 for h, o in known_hits])) and not violations:
@@ -236,7 +327,8 @@ class Report:
             "discharged": n_dis,
             "refuted": len(refuted),
             "undecided": len(undecided) + len(unsupported) + len(spurious),
-            "known_findings_hit": len(known_hits),
+            "known_findings_hit": len({id(h) for h, _ in known_hits}),
+            "obligations_refuted_as_listed_known_findings": len(known_refuted),
             "checker_cmd": self.checker_cmd,
             "trusted_base": self.trusted_base,
             "explanation": self.explanation,
@@ -247,6 +339,7 @@ class Report:
             "solver_seconds": round(solver_time, 3),
             "solver_stats": {k: (round(v, 3) if isinstance(v, float) else v) for k, v in stats.items()},
             "canaries": [c for u in self.units for c in u.canaries],
+            "units_from_cache": sum(1 for u in self.units if getattr(u, "cached", False)),
             "bounded_standins": [{k: v for k, v in b.items() if k != "disagreements"} | {"disagreements": len(b.get("disagreements", []))} for b in bounded],
             "samples": samples[:12],
             "evaluations": max(1, sum(u.paths for u in self.units) + sum(b.get("evaluations", 0) for b in bounded)),
